@@ -41,7 +41,7 @@ def one(d):
     meta = {
         "name": name,
         "breaks_property": name.split("-")[0],
-        "author": "fresh sub-agent given only the property text and a scratch worktree of /repo",
+        "author": (open(os.path.join(d, "AUTHOR.txt")).read().strip() if os.path.exists(os.path.join(d, "AUTHOR.txt")) else "fresh sub-agent given only the property text and a scratch worktree of /repo"),
         "needs_to_manifest": needs(os.path.join(d, "NOTES.md")),
         "demonstration": {"file": [f for f in os.listdir(d) if f.endswith("_test.go")], "placed_at": demo},
         "what_i_ran": [
